@@ -629,7 +629,16 @@ def assemble(unit, twin=False):
         code_part = l.split("//")[0]
         for pat in ("assume(", "admit(", "external_body", "assume_specification", "#[verifier::external", "uninterp spec fn", "axiom "):
             if pat in code_part:
-                a.trusted.append((idx, pat, l.strip()[:160]))
+                txt = l.strip()[:160]
+                if txt.startswith("#[verifier::external") and txt.endswith("]"):
+                    # name what is being trusted: the item the attribute sits on
+                    for nxt in lines[idx:idx + 4]:
+                        n2 = nxt.split("//")[0].strip()
+                        if n2 and not n2.startswith("#["):
+                            txt = "%s %s" % (txt, n2[:110])
+                            break
+                a.trusted.append((idx, pat, txt[:220]))
+                break
     return a
 
 
